@@ -563,10 +563,18 @@ func reifyMergeValue(
 			tmp.Set(old)
 			old = tmp
 		}
-		return reifyArray(opts, old, baseType, val)
+		v, err := reifyArray(opts, old, baseType, val)
+		if err != nil {
+			return reflect.Value{}, err
+		}
+		return pointerize(t, baseType, v), nil
 
 	case reflect.Slice:
-		return reifySliceMerge(opts, old, baseType, val)
+		v, err := reifySliceMerge(opts, old, baseType, val)
+		if err != nil {
+			return reflect.Value{}, err
+		}
+		return pointerize(t, baseType, v), nil
 	}
 
 	return reifyPrimitive(opts, val, t, baseType)
